@@ -10,3 +10,7 @@ K = ['K3 md5 recorded after the target is final, and always recorded on a comple
 G = ['backup_copy_file: md5 match => backup not reopened for writing; mismatch => backup := data (contract written in DESIGN.md, not yet enforced)',
      'backup_create_md5_file writes hex(md5(content of file at call time)) (not yet enforced)',
      'histories: the one-step invariant "md5 slot == md5(file) => backup slot holds the pre-uncrustify content" is argued in DESIGN.md, not machine checked; crash points not covered']
+
+sys.path.insert(0, os.path.join(os.path.dirname(os.path.abspath(__file__)), '..', '..', 'tools'))
+import replay_lib  # noqa: E402
+REPLAY = replay_lib.make_replay(replay_lib.scenario_md5_after_rename)
